@@ -176,20 +176,54 @@ Claim(c, p) == ~On(c) \/ p
 
 -----------------------------------------------------------------------------
 (* 1. DG: the diagnostics of one line                                      *)
-\* g = [num, cls, errs, warns]: WrXErrorPos after EXPECT / -w filtering, counters BEFORE counting
-DiagOK(o, d, g) ==
-  \/ g.cls = "expected"
-  \/ /\ ~(o.suppw /\ DG!IsWarnNum(g.num))
-     /\ g.cls = DG!Classify(o, g.num)
-     /\ g.errs = d.err /\ g.warns = d.warn
+(* EXPECT / ENDEXPECT (asmerr.c): the list of announced message numbers    *)
+(* lives in the diagnostic state of Diag.tla - d.exp = pExpectErrors, head *)
+(* first, d.inexp = InExpect; PassInit = AsmErrPassInit drops both - and   *)
+(* its semantics are those of DiagPos.tla (C20), reused by INSTANCE:       *)
+(* Report (WrXErrorPos: FindAndTakeExpectError takes the FIRST entry with  *)
+(* the number), AddAll (AddExpectError prepends argument by argument),     *)
+(* TakeFirst.  A message whose number is on the list is consumed: recorded *)
+(* with class "expected", not counted, the entry is gone.                  *)
+(* Named behaviour of the code:                                            *)
+(*   FatalNotExpectable   WrXErrorPos asks the list only for numbers below *)
+(*                        10000 (a fatal error cannot be swallowed)        *)
+(*   ExpectedFirst        the list is asked before -w and before counting  *)
+(*   DrainIsSubjectToList the "expected error did not occur" messages of   *)
+(*                        ENDEXPECT (2130) go through WrXErrorPos while    *)
+(*                        the rest of the list is still there: EXPECT      *)
+(*                        2130,1200 / ENDEXPECT reports nothing, EXPECT    *)
+(*                        1200,2130 / ENDEXPECT reports two errors         *)
+XP == INSTANCE DiagPos WITH Fixed <- {}, HasAttrs <- TRUE, MaxNum <- 0
+XOf(d) == [pending |-> d.exp, inExp |-> d.inexp, out |-> <<>>, log |-> <<>>]
+OnList(d, num) == num < 10000 /\ d.exp # <<>> /\ XP!Report(XOf(d), num, 0).log[1].hid
+Taken(d, num) == [d EXCEPT !.exp = XP!Report(XOf(d), num, 0).pending]
+
+\* g = [num, cls, errs, warns]: WrXErrorPos after EXPECT / -w filtering, counters BEFORE counting.
+\* loose: the list is not known to the specification (an EXPECT argument that is not a literal number) or the claim
+\* ExpectListIsHistory is switched off: the record is taken as it is.
+DiagOK(o, d, g, loose) ==
+  /\ loose \/ (g.cls = "expected") = OnList(d, g.num)                  \* ExpectListIsHistory
+  /\ \/ g.cls = "expected"
+     \/ /\ ~(o.suppw /\ DG!IsWarnNum(g.num))
+        /\ g.cls = DG!Classify(o, g.num)
+        /\ g.errs = d.err /\ g.warns = d.warn
 DiagApply(o, d, g) ==
-  IF g.cls = "expected" THEN d ELSE DG!WrErrorString(o, d, DG!IsWarnNum(g.num), DG!IsFatalNum(g.num))
-RECURSIVE FoldDiags(_, _, _, _)
-\* <<ok, d>>
-FoldDiags(o, d, gs, i) ==
+  IF g.cls = "expected" THEN (IF OnList(d, g.num) THEN Taken(d, g.num) ELSE d)
+  ELSE DG!WrErrorString(o, d, DG!IsWarnNum(g.num), DG!IsFatalNum(g.num))
+RECURSIVE FoldDiags(_, _, _, _, _, _)
+\* the records gs[i..k]: <<ok, d>>
+FoldDiags(o, d, gs, i, k, loose) ==
+  IF i > k THEN <<TRUE, d>>
+  ELSE IF d.fatal \/ ~DiagOK(o, d, gs[i], loose) THEN <<FALSE, d>>
+  ELSE FoldDiags(o, DiagApply(o, d, gs[i]), gs, i + 1, k, loose)
+\* AssembleFile_ExitPass: ClearStacks (230), then AsmErrPassExit - "missing ENDEXPECT" (2150) through WrXErrorPos
+\* while the list is still there, then ClearExpectErrors - then the other open constructs: <<ok, d>>
+RECURSIVE FoldDiagsExit(_, _, _, _, _)
+FoldDiagsExit(o, d, gs, i, loose) ==
   IF i > Len(gs) THEN <<TRUE, d>>
-  ELSE IF d.fatal \/ ~DiagOK(o, d, gs[i]) THEN <<FALSE, d>>
-  ELSE FoldDiags(o, DiagApply(o, d, gs[i]), gs, i + 1)
+  ELSE IF d.fatal \/ ~DiagOK(o, d, gs[i], loose) THEN <<FALSE, d>>
+  ELSE LET n == DiagApply(o, d, gs[i])
+       IN FoldDiagsExit(o, IF gs[i].num = DG!NumMissingENDEXPECT THEN [n EXCEPT !.exp = <<>>] ELSE n, gs, i + 1, loose)
 
 HasErr(gs) == \E i \in 1..Len(gs) : gs[i].num >= 1000          \* an error or fatal number, consumed by EXPECT or not
 HasDiag(gs, num) == \E i \in 1..Len(gs) : gs[i].num = num
@@ -207,6 +241,66 @@ UserCands(o, d, e, faulty) ==
 \* class error / fatal of this line (+ user: 1 for an executed ERROR / FATAL statement, or WARNING under -Werror)
 ErrsDeltaIsDiagCount(dpre, dpost, e, user) ==
   Claim("ErrsDeltaIsDiagCount", dpost.err = e.errs /\ dpost.err - dpre.err = CountedErrs(e.dg) + user)
+
+\* ---- EXPECT / ENDEXPECT: CodeEXPECT / CodeENDEXPECT (asmerr.c), as DiagPos!CodeEXPECT / CodeENDEXPECT / DrainPending
+\* e.gk = "EXPECT" | "ENDEXPECT": the statement was executed (selected, not recorded, not a macro call); e.ga = its
+\* arguments as the tokeniser reads them: a literal decimal number or -1 (anything else: the value is not known to the
+\* specification - from there to the ENDEXPECT / the end of the pass the list is `fuzzy`: au.fz, nothing is claimed
+\* about it).  The diagnostics of the line are those raised BEFORE the handler (label ...: gs[1..k], against the list
+\* as it was) and those the handler raises itself (gs[k+1..]); the set of d after the line.
+XKinds == {"EXPECT", "ENDEXPECT"}
+KnownNums(ga) == SelectSeq(ga, LAMBDA x : x >= 0)
+Fuzzy(ga) == \E i \in 1..Len(ga) : ga[i] < 0
+\* the handler raises exactly the one message num
+Raises1(o, d, gs, k, num, loose) ==
+  IF Len(gs) = k + 1 /\ gs[k + 1].num = num /\ ~d.fatal /\ DiagOK(o, d, gs[k + 1], loose)
+  THEN {DiagApply(o, d, gs[k + 1])} ELSE {}
+\* ... or whatever is recorded (claim switched off / list fuzzy)
+RaisesAny(o, d, gs, k) == LET f == FoldDiags(o, d, gs, k + 1, Len(gs), TRUE) IN IF f[1] THEN {f[2]} ELSE {}
+\* "while (pExpectErrors) { unlink the head; WrXError(ErrNum_ExpectedError) }": one 2130 per entry that is left - itself
+\* subject to the rest of the list (DrainIsSubjectToList); a -maxerrors stop ends the process: <<ok, d, next record>>
+RECURSIVE Drain(_, _, _, _)
+Drain(o, d, gs, i) ==
+  IF d.exp = <<>> \/ d.fatal THEN <<TRUE, d, i>>
+  ELSE LET d1 == [d EXCEPT !.exp = Tail(@)]
+       IN IF i <= Len(gs) /\ gs[i].num = DG!NumExpectedError /\ DiagOK(o, d1, gs[i], FALSE)
+          THEN Drain(o, DiagApply(o, d1, gs[i]), gs, i + 1) ELSE <<FALSE, d, i>>
+XHandler(o, d, e, k, fz) ==
+  LET gs == e.dg
+      n  == Len(gs)
+  IN
+  CASE e.gk = "EXPECT" ->
+         IF ~On("ExpectDoesNotNest")
+         THEN {IF e.argc = 0 \/ d.inexp THEN x ELSE [x EXCEPT !.exp = XP!AddAll(@, KnownNums(e.ga)), !.inexp = TRUE] :
+                 x \in RaisesAny(o, d, gs, k)}
+         ELSE IF e.argc = 0 THEN Raises1(o, d, gs, k, 1110, fz)                     \* ChkArgCnt(1, ArgCntMax)
+         ELSE IF d.inexp THEN Raises1(o, d, gs, k, DG!NumNoNestExpect, fz)          \* the list stays as it is
+         ELSE IF Fuzzy(e.ga)
+              THEN {[x EXCEPT !.exp = XP!AddAll(@, KnownNums(e.ga)), !.inexp = TRUE] : x \in RaisesAny(o, d, gs, k)}
+         ELSE IF k = n THEN {[d EXCEPT !.exp = XP!CodeEXPECT(XOf(d), e.ga, 0).pending, !.inexp = TRUE]} ELSE {}
+    [] e.gk = "ENDEXPECT" ->
+         IF fz \/ ~On("EndExpectReportsExactlyUnmet")
+         THEN {IF e.argc # 0 \/ ~d.inexp THEN x ELSE [x EXCEPT !.exp = <<>>, !.inexp = FALSE] :
+                 x \in RaisesAny(o, d, gs, k)}
+         ELSE IF e.argc # 0 THEN Raises1(o, d, gs, k, 1110, FALSE)                   \* ChkArgCnt(0, 0)
+         ELSE IF ~d.inexp THEN Raises1(o, d, gs, k, DG!NumMissingEXPECT, FALSE)
+         ELSE LET r == Drain(o, d, gs, k + 1)                                        \* EndExpectReportsExactlyUnmet:
+              IN IF r[1] /\ r[3] = n + 1                                             \* one 2130 per unmet entry, no more
+                 THEN {IF r[2].fatal THEN r[2] ELSE [r[2] EXCEPT !.inexp = FALSE]} ELSE {}
+    [] OTHER -> {}
+\* the diagnostic state after the line (before a user ERROR / WARNING / FATAL is counted)
+XLine(o, d, e, fz) ==
+  LET loose == fz \/ ~On("ExpectListIsHistory")
+      n == Len(e.dg)
+  IN IF e.gk \notin XKinds
+     THEN (IF e.dg = <<>> THEN {d} ELSE LET f == FoldDiags(o, d, e.dg, 1, n, loose) IN IF f[1] THEN {f[2]} ELSE {})
+     ELSE UNION {LET f == FoldDiags(o, d, e.dg, 1, k, loose) IN IF f[1] THEN XHandler(o, f[2], e, k, fz) ELSE {}
+                 : k \in 0..n}
+\* the list is fuzzy after the statement
+FuzzyAfter(d, e, fz) ==
+  CASE e.gk = "EXPECT"    -> fz \/ (e.argc > 0 /\ ~d.inexp /\ Fuzzy(e.ga))
+    [] e.gk = "ENDEXPECT" -> fz /\ ~(e.argc = 0 /\ d.inexp)
+    [] OTHER              -> fz
 
 -----------------------------------------------------------------------------
 (* 2. CA: conditional assembly (as CondAsm_Trace), EXITM decided by MP     *)
@@ -699,6 +793,95 @@ SySucc(s, e, tags, labexp, quiet, recpre) ==
   ELSE SySlow(s, e, tags, labexp, quiet, recpre)
 
 -----------------------------------------------------------------------------
+(* 5b. AU: what the statement-level machines above do not hold.            *)
+(* au = [fz      the EXPECT list is not known to the specification         *)
+(*       fns     names defined by FUNCTION (kept until the file ends:      *)
+(*               ClearFunctionList runs after the last pass)               *)
+(*       rp      a cause for another pass was seen in this pass: a         *)
+(*               constant re-entered with another value than in the pass   *)
+(*               before (SymbolAdder, outcome "changed") or a lookup that  *)
+(*               found nothing (LookupSymbol, outcome "unknown")           *)
+(*       ended   an END statement was executed (ENDOccured)                *)
+(*       entry   ... with a start address (StartAdrPresent)]               *)
+InitAU == [fz |-> FALSE, fns |-> {}, rp |-> FALSE, ended |-> FALSE, entry |-> FALSE]
+AuStartPass(au, pass) == IF pass = 1 THEN InitAU ELSE [InitAU EXCEPT !.fns = au.fns]
+
+\* ---- IFDEF / IFNDEF read the table (asmif.c CodeIFDEF: IsSymbolDefined || FindFunction || FoundMacroByName) -----
+\* e.ga = <<name as the table stores it, name in capitals>> for IFDEF / IFNDEF with ONE argument that is a plain name.
+\* IsSymbolDefined: FindLocNode (the chain of local handles, innermost first), else FindNode (the current section and
+\* the sections around it) - and the entry found has been defined IN THIS PASS (Defined is reset by
+\* ResetSymbolDefines).  "yes" / "no" / "unknown": a name that is (also) a macro or a function - macros are looked
+\* up per section, which the projection of the macro processor does not hold (gap: section scoping of macro names).
+LocKey(sy, ch, name) ==
+  LET C == {k \in 1..Len(ch) : <<name, ch[k]>> \in DOMAIN sy.loc}
+  IN IF C = {} THEN <<>> ELSE <<name, ch[CHOOSE k \in C : \A j \in C : k <= j]>>
+IfdefKnown(s, tags, ga) ==
+  LET lk  == LocKey(s.sy, LocChain(tags), ga[1])
+      gk  == SY!FindNode(s.sy, ga[1], SY!NoQ).key
+      def == IF lk # <<>> THEN s.sy.loc[lk].def ELSE IF gk # SY!NoKey THEN s.sy.tab[gk].def ELSE FALSE
+  IN IF def THEN "yes" ELSE IF ga[2] \in DOMAIN s.mp.macros \/ ga[1] \in s.au.fns \/ ga[2] \in s.au.fns THEN "unknown"
+     ELSE "no"
+\* c = the state of CondAsm the record selects
+IfdefReadsTable(s, tags, e, c, ifpre, recpre) ==
+  Claim("IfdefReadsTable",
+        (e.gk \in {"IFDEF", "IFNDEF"} /\ e.ca = "IF" /\ ifpre /\ ~recpre /\ e.argc = 1 /\ e.ga # <<>>) =>
+          LET k == IfdefKnown(s, tags, e.ga)
+          IN k = "unknown" \/ c = CA!DoIf(s.ca, (k = "yes") = (e.gk = "IFDEF")))
+
+\* ---- causes of another pass ----------------------------------------------------------------------------------
+RepassCause(rs) == \E i \in 1..Len(rs) : \/ rs[i].k = "def" /\ ~rs[i].chg /\ rs[i].out = "changed"
+                                         \/ rs[i].k = "ref" /\ rs[i].out = "unknown"
+\* (AsCore_Trace, PASSEND) Repass is only ever set in a pass, never cleared: the pass loop sees it
+PhaseErrorForcesRepass(au, e) == Claim("PhaseErrorForcesRepass", au.rp => e.repass = 1)
+
+\* ---- named actions for statements that used to fall under the generic rule ------------------------------------
+\* e.gk = "EMPTY"  no instruction on the line (blank, comment, label only)
+\*        "LIST"   NEWPAGE / PAGE / TITLE / PRTINIT / PRTEXIT / PAGESIZE: controls of the listing
+\*        "ALIGN"  ALIGN with a literal first argument e.ga[1] (asmallg.c CodeALIGN)
+\*        "END"    an executed END statement
+\* (all of them: selected, not recorded, not a macro call - the tokeniser says so, SkippedIsInert covers the rest)
+RECURSIVE SumER(_, _)
+SumER(cs, i) == IF i > Len(cs) THEN 0 ELSE (IF cs[i].k \in {"E", "R"} THEN cs[i].n ELSE 0) + SumER(cs, i + 1)
+LastER(cs) == LET C == {i \in 1..Len(cs) : cs[i].k \in {"E", "R"}}
+              IN IF C = {} THEN 0 ELSE cs[CHOOSE i \in C : \A j \in C : j <= i].n
+\* CodeLen of the stmt record against the emit / reserve records: what WriteCode handed out is what the statement
+\* produced (in address units: bytes / granularity) - all of it, or the last portion when the statement was padded
+\* first (automatic alignment: the pad is a chunk of its own) or flushed in portions; inside a structure body nothing
+\* is handed out and CodeLen moves the structure's counter (BodyAdvance)
+CodeLenIsEmitted(e, ab) ==
+  Claim("CodeLenIsEmitted",
+        /\ (e.ch # <<>> /\ ~AB!InStruct(ab)) => e.len \in {SumER(e.ch, 1), LastER(e.ch)}
+        /\ (e.ch = <<>> /\ e.len > 0) => (AB!InStruct(ab) \/ e.cb \in {"STRUCT", "UNION", "ENDSTRUCT"}))
+EmptyLineIsInert(e, ab, nab) ==
+  Claim("EmptyLineIsInert", e.gk = "EMPTY" => (e.ch = <<>> /\ e.len = 0 /\ nab = ab))
+\* PageIsInstruction (asmallg.c PageIsOccupied): on targets with a machine instruction PAGE (SX20, OLMS-50) the
+\* listing control is spelled PAGESIZE and PAGE goes to the code generator - it emits then
+PageIsInstruction(e) == e.op = "PAGE" /\ e.len > 0
+ListingControlIsInert(e, ab, nab) ==
+  Claim("ListingControlIsInert", (e.gk = "LIST" /\ ~PageIsInstruction(e)) => (e.ch = <<>> /\ e.len = 0 /\ nab = ab))
+\* "ALIGN n: the program counter is advanced to the next multiple of n" (execution address; what lies between is
+\* reserved or filled: the chunks account for it)
+AlignReachesBoundary(e, ab, nab, quiet) ==
+  Claim("AlignReachesBoundary",
+        (e.gk = "ALIGN" /\ quiet /\ e.ga # <<>> /\ e.ga[1] > 0 /\ nab.act = ab.act) =>
+           AB!Exec(nab) = AB!Exec(ab) + AB!AlignGap(ab, e.ga[1]))
+\* END: "ENDOccured = True" unless the argument count is wrong (ChkArgCnt(0, 1)); ProcessFile then drains the input
+\* tags without executing another statement
+EndExecuted(e) == e.gk = "END" /\ ~HasDiag(e.dg, 1110)
+AuAfter(s, e, dpre, quiet) ==
+  [fz    |-> FuzzyAfter(dpre, e, s.au.fz),
+   fns   |-> IF e.gk = "FUNCTION" /\ quiet /\ e.ga # <<>> THEN s.au.fns \cup {e.ga[1]} ELSE s.au.fns,
+   rp    |-> s.au.rp \/ RepassCause(e.sy) \/ RepassCause(e.psy),
+   ended |-> s.au.ended \/ EndExecuted(e),
+   entry |-> s.au.entry \/ (EndExecuted(e) /\ e.argc = 1 /\ quiet)]
+\* (AsCore_Trace / AsCore_MC, end of the pass) AsmErrPassExit: an EXPECT that is still open is reported (2150: asked of
+\* the list like every message) - and with PassInit (Driver_Trace's Pass: d' = PassInit) neither the list nor InExpect
+\* reaches the next pass or the next file
+ExpectEndsWithPass(d, gs) == Claim("ExpectEndsWithPass", d.inexp = HasDiag(gs, DG!NumMissingENDEXPECT))
+\* (AsCore_Trace, FILEEND) the code file has an entry record iff an END of the last pass gave a start address
+EndSetsEntry(au, entries) == Claim("EndSetsEntry", entries = (IF au.entry THEN 1 ELSE 0))
+
+-----------------------------------------------------------------------------
 (* 6. THE COMPOSED STEP: one execution of Produce_Code as a step of every  *)
 (* machine.  s = [ca, ab, mp, cw, d, sy, en] (states of CondAsm, AddrBook, *)
 (* the projected macro processor, the stream cursor, the diagnostic        *)
@@ -712,33 +895,39 @@ StmtSuccAt(Tx(_), rs, o, s, e, pos) ==
   LET ifpre  == s.ca.ifasm
       recpre == s.mp.outs # <<>>
       quiet  == ~HasErr(e.dg)
-      fd     == FoldDiags(o, s.d, e.dg, 1)
+      fds    == XLine(o, s.d, e, s.au.fz)                \* the diagnostics of the line + EXPECT / ENDEXPECT
       here   == [nl |-> e.nl, tx |-> e.tx, dp |-> e.dp, em |-> e.em]
-      ds     == IF IsUserOp(e, ifpre, recpre) THEN UserCands(o, fd[2], e, e.dg # <<>>) ELSE {fd[2]}
       labexp == LabelExpected(e, s.ab, ifpre, recpre)
       labfailed == labexp /\ Defs(e.sy) # <<>> /\ Defs(e.sy)[1].out \in {"double", "mix"}
-      After(c, m, h) ==
+      nau    == AuAfter(s, e, s.d, quiet)
+      After(c, m, h, f2) ==
         LET r   == Chunks(rs, h, s.cw, e.ch, 1)
             nab == BodyAdvance(r[2], e)
+            ds  == IF IsUserOp(e, ifpre, recpre) THEN UserCands(o, f2, e, e.dg # <<>>) ELSE {f2}
         IN IF /\ r[1]
               /\ PostOK(nab, e)
               /\ SkippedIsInert(e, s.ca, s.ab, nab)
               /\ RecordedIsInert(e, s.ca, c, s.ab, nab, recpre)
               /\ IfFamilyIsAddressNeutral(e, s.ab, nab)
               /\ ErrorLineEmitsNoCode(e, ifpre, recpre, labfailed)
+              /\ CodeLenIsEmitted(e, s.ab)
+              /\ EmptyLineIsInert(e, s.ab, nab)
+              /\ ListingControlIsInert(e, s.ab, nab)
+              /\ AlignReachesBoundary(e, s.ab, nab, quiet)
            THEN {[ca |-> [c EXCEPT !.errs = 0, !.warns = 0], ab |-> nab, mp |-> m, cw |-> r[3], d |-> d2] :
-                   d2 \in {x \in ds : ErrsDeltaIsDiagCount(s.d, x, e, x.err - fd[2].err)}}
+                   d2 \in {x \in ds : ErrsDeltaIsDiagCount(s.d, x, e, x.err - f2.err)}}
            ELSE {}
       Produced(tg, c) ==
         {m \in Produce([s.mp EXCEPT !.tags = tg.tags, !.lc = tg.lc], e, pos, ifpre, Len(s.ca.stk), quiet) :
            Claim("TagDepthIsMachineDepth", Len(m.tags) = e.tagd) /\ (m.outs # <<>>) = e.rec}
       Selected(tg) ==
-        {c \in CACands(s.ca, tg.tags, e) : CAMatches(c, e) /\ MachineErrorIsReported(s.ca, c, e.dg)}
+        {c \in CACands(s.ca, tg.tags, e) : /\ CAMatches(c, e) /\ MachineErrorIsReported(s.ca, c, e.dg)
+                                           /\ IfdefReadsTable(s, tg.tags, e, c, ifpre, recpre)}
       \* the other machines (small states: alternatives that coincide are merged here), then the table is attached
-      Small(tg) == UNION {UNION {UNION {After(c, m, h) : h \in AfterHandler(s.ab, e, quiet)} : m \in Produced(tg, c)}
-                          : c \in Selected(tg)}
-  IN IF ~fd[1] THEN {}
-     ELSE UNION {{[ca |-> x.ca, ab |-> x.ab, mp |-> x.mp, cw |-> x.cw, d |-> x.d, sy |-> y[1], en |-> y[2]] :
+      Small(tg) == UNION {UNION {UNION {UNION {After(c, m, h, f2) : f2 \in fds} : h \in AfterHandler(s.ab, e, quiet)}
+                                 : m \in Produced(tg, c)} : c \in Selected(tg)}
+  IN IF fds = {} \/ (s.au.ended /\ On("EndStopsAssembly")) THEN {}
+     ELSE UNION {{[ca |-> x.ca, ab |-> x.ab, mp |-> x.mp, cw |-> x.cw, d |-> x.d, sy |-> y[1], en |-> y[2], au |-> nau] :
                     x \in Small(tg), y \in SySucc(s, e, tg.tags, labexp, quiet, recpre)}
                  : tg \in Deliver(Tx, [tags |-> s.mp.tags, lc |-> s.mp.lc], Append(e.pre, here), 1)}
 \* (pos = l: the wrappers step statement by statement; AsCore_Trace also takes several statements in one step)
